@@ -16,7 +16,7 @@ const pkgParser = "internal/frontend/parser"
 
 func init() {
 	register("C03", &propSpec{
-		Explanation: "Structural necessary conditions for 'ill-typed programs are rejected': (R1) the type checker's traversal reaches every expression/statement child of every AST kind the parser builds (access-path reachability from checkExpr/checkNode to the checking sinks).",
+		Explanation: "Structural necessary conditions for 'ill-typed programs are rejected': (R1) the type checker's traversal reaches every expression/statement child of every AST kind the parser builds (access-path reachability from checkExpr/checkNode to the checking sinks); (R2) undefined names are rejected by the resolver or the MIR identifier backstop; (R3a-d) every expected-type check, call gate, rule class and return/array-length rule has a reachable error report on all paths; (R4) code generation runs only behind HasErrors(); (R5) arithmetic and bitwise operators accept two typed operands only when their types are identical and every operator handed to checkBinaryExpr has a case.",
 		Quick:       []ruleFn{c03R1},
 	})
 }
